@@ -13,6 +13,11 @@ FLOAT_VALUES = [0.5, -1.25, 3.25, 0.001, 0.000001, 7.25, -0.3]
 ANGLES = [0.0, 1.5707963267948966, -1.5707963267948966, 3.141592653589793, 0.3, 0.001, 7.25, -1.2, 2.5, 1, 2, -3]
 
 
+def _keyorder(k):
+    """A total order on qubit keys (ints and strings) that does not depend on hashing."""
+    return (type(k).__name__, str(k))
+
+
 def swarm(t, profile="exec"):
     """Per-run configuration drawn from the 'swarm' tape."""
     import os
@@ -105,10 +110,12 @@ class Gen:
                     prog["maps"].append({"name": nm, "src": src, "kind": "whole"})
                     self.regs[nm] = list(base)
                     last = nm
-                elif x < 0.4:
+                elif x < 0.2 + cfg.get("p_single", 0.2):
                     i = t.randrange(len(base))
                     prog["maps"].append({"name": nm, "src": src, "kind": "single", "idx": self.int_ref(i)})
                     self.singles[nm] = base[i]
+                    self.single_src = getattr(self, "single_src", {})
+                    self.single_src[nm] = src
                 else:
                     a = t.randrange(len(base))
                     if len(base) >= 3 and t.chance(0.5):
@@ -216,9 +223,15 @@ class Gen:
         ri = [c for c in cands if isinstance(c[1], str) and c[1].startswith("ri:")]
         if ri and t.chance(0.5):
             fancy = ri
+        # single-qubit aliases whose source register is hidden by a parameter of this macro
+        # (written out as an indexed register they would be captured by the parameter)
+        ssrc = getattr(self, "single_src", {})
+        hidden = [c for c in cands if c[0][0] == "id" and ssrc.get(c[0][1]) in params]
         chosen, keys = [], set()
         for _ in range(k):
             pool = fancy if (fancy and t.chance(self.cfg["p_alias_use"])) else (direct or fancy)
+            if hidden and t.chance(0.6):
+                pool = hidden
             pool = [c for c in pool if c[1] not in keys]
             if not pool:
                 pool = [c for c in cands if c[1] not in keys]
@@ -263,7 +276,7 @@ class Gen:
         if c and t.chance(0.5):
             return t.choice(c)
         lets = [k for k, v in sorted(self.lets.items()) if k not in params and isinstance(v, int) and v >= 0]
-        if lets and t.chance(max(0.5 if getattr(self, "in_macro", False) else 0.2, self.cfg["p_let_use"])):
+        if lets and not getattr(self, "pure", False) and t.chance(max(0.5 if getattr(self, "in_macro", False) else 0.2, self.cfg["p_let_use"])):
             return t.choice(lets)
         return t.choice(self.cfg["loop_counts"])
 
@@ -312,7 +325,7 @@ class Gen:
         return {"k": "gate", "name": name, "args": args}, set()
 
     def all_keys(self, params):
-        return sorted({c[1] for c in self.qubit_cands(params)}, key=str)
+        return sorted({c[1] for c in self.qubit_cands(params)}, key=_keyorder)
 
     def inside_items(self, params, depth, avail, parent="seq", maxn=4):
         """Statements legal inside a bracket (gates, parallel blocks, loops, gate-macro
@@ -336,7 +349,8 @@ class Gen:
                     self.budget -= 1
                 continue
             if x < cfg["p_par"] and not deep:
-                keys = [a for a in (avail if avail is not None else self.all_keys(params))]
+                # (avail may be a set: never iterate it in hash order)
+                keys = [a for a in (sorted(avail, key=_keyorder) if avail is not None else self.all_keys(params))]
                 keys = [a for a in keys if a is not None]
                 t.shuffle(keys)
                 nb = t.randint(1, max(1, min(3, len(keys))))
@@ -355,7 +369,7 @@ class Gen:
                 if t.chance(0.8):
                     body = {"k": "seq", "body": self.inside_items(params, depth + 1, avail, "seq", 3)}
                 else:
-                    keys = [a for a in (avail if avail is not None else self.all_keys(params)) if a is not None]
+                    keys = [a for a in (sorted(avail, key=_keyorder) if avail is not None else self.all_keys(params)) if a is not None]
                     t.shuffle(keys)
                     nb = t.randint(1, max(1, min(2, len(keys))))
                     br = []
@@ -523,7 +537,7 @@ class Gen:
         name = "m%d" % idx
         nparams = t.choice([0, 1, 1, 2, 2, 3])
         # (shadowing: a parameter named like the register, like a single-qubit alias, like a let)
-        pool = (PARAM_NAMES + [self.rname] * 2 + sorted(self.singles) * 2 + sorted(self.lets)) if t.chance(cfg["p_shadow"]) else [p for p in PARAM_NAMES if p not in self.used_names] or PARAM_NAMES
+        pool = (PARAM_NAMES + [self.rname] * 2 + sorted(self.singles) * 2 + sorted(self.lets) + sorted(r_ for r_ in self.regs if r_ != self.rname) + sorted(set(getattr(self, "single_src", {}).values())) * 3) if t.chance(cfg["p_shadow"]) else [p for p in PARAM_NAMES if p not in self.used_names] or PARAM_NAMES
         pool = list(dict.fromkeys(pool)) if not t.chance(0.5) else pool
         pnames = t.sample(pool, min(nparams, len(pool)))
         pnames = list(dict.fromkeys(pnames))
@@ -539,12 +553,28 @@ class Gen:
             info[p] = {"kind": kd}
             if kd == "r":
                 info[p]["minsize"] = t.randint(1, 2)
+        if cfg.get("p_regparam") and len(pnames) >= 2 and t.chance(cfg["p_regparam"]):
+            # a register parameter and an index parameter for it (macro F r i { G r[i] })
+            info[pnames[0]] = {"kind": "r", "minsize": t.randint(1, 2)}
+            info[pnames[1]] = {"kind": "i"}
         rs = [p for p in pnames if info[p]["kind"] == "r"]
         others = [p for p in pnames if info[p]["kind"] != "r"]
         if rs and others and t.chance(0.5):
             info[t.choice(others)] = {"kind": "i"}  # a register parameter indexed by an index parameter
         role = "bracket" if (self.exec and t.chance(0.3)) else "gates"
         self.in_macro = True
+        saved_cfg = None
+        if t.chance(0.3):
+            # a "pure" macro: it mentions its parameters, the register and other macros only
+            # - no let, no alias (what a pass does to a definition that it has no reason to
+            # touch is a case of its own)
+            saved_cfg = {k_: cfg[k_] for k_ in ("p_let_use", "p_alias_use", "p_call")}
+            cfg.update(p_let_use=0.0, p_alias_use=0.0, p_call=max(cfg["p_call"], 0.45))
+            self.pure = True
+            if self.exec and self.gate_macros and t.chance(0.5):
+                role = "bracket"  # ... and calls them from inside its own subcircuit blocks
+                saved_cfg["p_subblock"] = cfg["p_subblock"]
+                cfg["p_subblock"] = max(cfg["p_subblock"], 0.7)
         if not self.exec:
             body_items = self.general_items(info, 1, "seq", False, False, 3)
             body = {"k": "seq", "body": body_items}
@@ -570,6 +600,9 @@ class Gen:
             if info[p]["kind"] == "i" and not info[p].get("lens"):
                 info[p]["lens"] = [1]
         self.in_macro = False
+        if saved_cfg is not None:
+            cfg.update(saved_cfg)
+            self.pure = False
         m = {"name": name, "params": pnames, "body": body}
         return m, {"name": name, "params": pnames, "info": info, "role": role}
 
